@@ -97,12 +97,14 @@ class Call:
 class Ob:
     def __init__(self, name, kind, inputs, calls, assume, goal, ub=False, portfolio=None, timeout=None,
                  natives=None, note="", extra_asserts=(), expect_unsat=True, abstract=False, fallback=None,
-                 comm_lemmas=True, also_ub=False, exact=None, magnitude=False, ub_filter=None):
+                 comm_lemmas=True, also_ub=False, exact=None, magnitude=False, ub_filter=None, advisory=False):
         self.name, self.kind, self.inputs, self.calls = name, kind, list(inputs), list(calls)
         self.assume, self.goal, self.ub = assume, goal, ub
         self.portfolio, self.timeout, self.natives, self.note = portfolio, timeout, natives, note
         self.extra_asserts = list(extra_asserts)
         self.abstract, self.fallback, self.comm_lemmas = abstract, fallback, comm_lemmas
+        self.advisory = advisory    # obligation beyond the property's stated domain (a lemma another property relies on): a
+        #                             reproduced counterexample is reported as INCONCLUSIVE with a note, never as VIOLATION
         self.ub_filter = ub_filter  # optional predicate(kind, ir text, cond) selecting the UB sites this obligation covers
         self.magnitude = magnitude  # add |X|<2^p => |X*Y| <= |Y|*2^p lemma instances for abstracted products
         self.exact = exact          # optional exact concrete decision of the PROPERTY: f(inputs: {name: int}, outs: [int]) -> bool
@@ -430,7 +432,10 @@ class Run:
             ob.verdict, ob.detail = "inconclusive", "replay build failed: %s" % e
             return
         ob.replay = info
-        if st == "reproduced":
+        if st == "reproduced" and ob.advisory:
+            ob.verdict, ob.detail = "inconclusive", ("counterexample outside the property's stated domain (this obligation is a "
+                                                    "lemma for another property): %s" % json.dumps(info.get("inputs")))
+        elif st == "reproduced":
             ob.verdict = "violation"
         elif st == "unwinding":
             ob.verdict, ob.detail = "inconclusive", "unwinding bound too small for the model found"
